@@ -110,6 +110,15 @@ def run(ctx):
         if entry == 'specification' and rng.random() < 0.5:
             t = rng.choice(valid['property']) + '\n' + t
         texts.append((entry, t, 'annotations'))
+    # every sequence of 1..3 well-formed annotations over the three keys (repetitions in every order, with and without an id before them)
+    import itertools
+    WELL = {'id': 'p1', 'title': '"t"', 'description': '"d"'}
+    for L in (1, 2, 3):
+        for seq in itertools.product(('id', 'title', 'description'), repeat=L):
+            block = '\n'.join(f'# {k}: {WELL[k] if i == 0 or k != "id" else "p" + str(i + 1)}' for i, k in enumerate(seq))
+            for entry, t in (('property', block + '\nglobally: no a'), ('specification', block + '\nglobally: no a'),
+                             ('specification', '# id: first\nglobally: some b\n\n' + block + '\nglobally: no a')):
+                texts.append((entry, t, 'annotations-exhaustive'))
     # deep nesting within the stated bound
     for d in (5, 10, 12):
         texts.append(('expression', '(' * d + 'x' + ')' * d + ' > 0', 'nested'))
